@@ -45,9 +45,71 @@ let int_tag = function
   | "u8" -> TTinyUnsigned | "u16" -> TSmallUnsigned | "u32" -> TUnsigned | "u64" -> TBigUnsigned
   | _ -> failwith "int tag"
 
+(* ---- every value kind: the model encoding printed by the harness (harness/src/valueenc.rs) ---- *)
+let vtag_names = [
+  "Bool", TBool; "TinyInt", TTinyInt; "SmallInt", TSmallInt; "Int", TInt; "BigInt", TBigInt;
+  "TinyUnsigned", TTinyUnsigned; "SmallUnsigned", TSmallUnsigned; "Unsigned", TUnsigned; "BigUnsigned", TBigUnsigned;
+  "Float", TFloat; "Double", TDouble; "String", TString; "Char", TChar; "Bytes", TBytes; "Json", TJson;
+  "ChronoDate", TChronoDate; "ChronoTime", TChronoTime; "ChronoDateTime", TChronoDateTime;
+  "ChronoDateTimeUtc", TChronoDateTimeUtc; "ChronoDateTimeLocal", TChronoDateTimeLocal;
+  "ChronoDateTimeWithTimeZone", TChronoDateTimeWithTimeZone; "TimeDate", TTimeDate; "TimeTime", TTimeTime;
+  "TimeDateTime", TTimeDateTime; "TimeDateTimeWithTimeZone", TTimeDateTimeWithTimeZone; "Uuid", TUuid;
+  "Decimal", TDecimal; "BigDecimal", TBigDecimal; "Vector", TVector; "IpNetwork", TIpNetwork;
+  "MacAddress", TMacAddress ]
+let vtag_of_name (s : string) : vtag =
+  match List.assoc_opt s vtag_names with Some t -> t | None -> failwith ("variant " ^ s)
+let name_of_vtag (t : vtag) : string = fst (List.find (fun (_, t') -> t' = t) vtag_names)
+let int_short = function
+  | TTinyInt -> "i8" | TSmallInt -> "i16" | TInt -> "i32" | TBigInt -> "i64"
+  | TTinyUnsigned -> "u8" | TSmallUnsigned -> "u16" | TUnsigned -> "u32" | TBigUnsigned -> "u64"
+  | _ -> failwith "integer payload under a non-integer variant"
+let dec_z (x : z) : string =
+  match x with
+  | Z0 -> "0"
+  | Zneg p -> "-" ^ dec_n (Npos p)
+  | Zpos p -> dec_n (Npos p)
+
+let rec value_of_enc (e : Sexp.t) : value =
+  match e with
+  | L [A "b"; A x] -> V (TBool, Some (PBool (x = "1")))
+  | L [A "i"; A tag; A z] -> V (int_tag tag, Some (PInt (z_of_string z)))
+  | L [A "s"; A h] -> V (TString, Some (PStr (str_of_hex h)))
+  | L [A "c"; A h] -> V (TChar, Some (PChar (List.hd (str_of_hex h))))
+  | L [A "y"; A h] -> V (TBytes, Some (PBytes (bytes_of_hex h)))
+  | L [A "f32"; A bits; A txt] ->
+      Hashtbl.replace ftext_tbl (false, hex_of_n (n_of_hex bits)) (str_of_hex txt);
+      V (TFloat, Some (PF32 (n_of_hex bits)))
+  | L [A "f64"; A bits; A txt] ->
+      Hashtbl.replace ftext_tbl (true, hex_of_n (n_of_hex bits)) (str_of_hex txt);
+      V (TDouble, Some (PF64 (n_of_hex bits)))
+  | L [A "null"; A tag] -> V (vtag_of_name tag, None)
+  | L [A "o"; A tag; A oid; A txt] -> V (vtag_of_name tag, Some (POpaque (n_of_dec oid, str_of_hex txt)))
+  | L (A "arr" :: A tag :: vs) -> VArray (vtag_of_name tag, Some (List.map value_of_enc vs))
+  | L [A "arrnull"; A tag] -> VArray (vtag_of_name tag, None)
+  | _ -> failwith "value encoding"
+
+(* inverse of value_of_enc: printed from the value the model returns (bound parameters) *)
+let rec enc_value (v : value) : string =
+  match v with
+  | V (t, None) -> "(null " ^ name_of_vtag t ^ ")"
+  | V (t, Some p) ->
+      (match p with
+       | PBool b -> if b then "(b 1)" else "(b 0)"
+       | PInt z -> "(i " ^ int_short t ^ " " ^ dec_z z ^ ")"
+       | PF32 bits -> "(f32 " ^ hex_of_n bits ^ " " ^ hex_of_str (ftext false bits) ^ ")"
+       | PF64 bits -> "(f64 " ^ hex_of_n bits ^ " " ^ hex_of_str (ftext true bits) ^ ")"
+       | PStr s -> "(s " ^ hex_of_str s ^ ")"
+       | PChar c -> "(c " ^ hex_of_str [c] ^ ")"
+       | PBytes bs -> "(y " ^ hex_of_bytes bs ^ ")"
+       | POpaque (oid, txt) -> "(o " ^ name_of_vtag t ^ " " ^ dec_n oid ^ " " ^ hex_of_str txt ^ ")")
+  | VArray (t, None) -> "(arrnull " ^ name_of_vtag t ^ ")"
+  | VArray (t, Some vs) ->
+      "(arr " ^ name_of_vtag t ^ String.concat "" (List.map (fun x -> " " ^ enc_value x) vs) ^ ")"
+
 let value (s : Sexp.t) : value =
   let t = String.split_on_char ':' (atom s) in
   match t with
+  | ["v"; _term; enc] -> value_of_enc (Sexp.parse (unhex enc))
   | ["b"; x] -> V (TBool, Some (PBool (x = "1")))
   | ["i"; tag; z] -> V (int_tag tag, Some (PInt (z_of_string z)))
   | ["s"; h] -> V (TString, Some (PStr (str_of_hex h)))
@@ -65,28 +127,30 @@ let value (s : Sexp.t) : value =
   | _ -> failwith ("value " ^ atom s)
 
 let show_value (v : value) : string =
+  (* the 14 basic variants keep the short form; payload-crate kinds, vectors and arrays print the model
+     encoding with `_` for spaces (harness: valueenc::show_bound) *)
   let tagname = function
-    | TBool -> "b" | TTinyInt -> "i8" | TSmallInt -> "i16" | TInt -> "i32" | TBigInt -> "i64"
-    | TTinyUnsigned -> "u8" | TSmallUnsigned -> "u16" | TUnsigned -> "u32" | TBigUnsigned -> "u64"
-    | TFloat -> "f32" | TDouble -> "f64" | TString -> "s" | TChar -> "c" | TBytes -> "y" | _ -> "o" in
-  let dec_z (x : z) : string =
-    match x with
-    | Z0 -> "0"
-    | Zneg p -> "-" ^ dec_n (Npos p)
-    | Zpos p -> dec_n (Npos p) in
+    | TBool -> Some "b" | TTinyInt -> Some "i8" | TSmallInt -> Some "i16" | TInt -> Some "i32" | TBigInt -> Some "i64"
+    | TTinyUnsigned -> Some "u8" | TSmallUnsigned -> Some "u16" | TUnsigned -> Some "u32" | TBigUnsigned -> Some "u64"
+    | TFloat -> Some "f32" | TDouble -> Some "f64" | TString -> Some "s" | TChar -> Some "c" | TBytes -> Some "y"
+    | _ -> None in
+  let underscored s = String.map (fun c -> if c = ' ' then '_' else c) s in
   match v with
-  | V (t, None) -> tagname t ^ ":N"
-  | V (t, Some p) ->
-      tagname t ^ ":" ^
+  | V (t, p) when tagname t <> None ->
+      let tn = (match tagname t with Some x -> x | None -> "") in
       (match p with
-       | PBool b -> if b then "1" else "0"
-       | PInt z -> dec_z z
-       | PF32 bits | PF64 bits -> hex_of_n bits
-       | PStr s -> hex_of_str s
-       | PChar c -> hex_of_str [c]
-       | PBytes bs -> hex_of_bytes bs
-       | POpaque (_, t) -> hex_of_str t)
-  | VArray (_, _) -> "arr"
+       | None -> tn ^ ":N"
+       | Some p ->
+           tn ^ ":" ^
+           (match p with
+            | PBool b -> if b then "1" else "0"
+            | PInt z -> dec_z z
+            | PF32 bits | PF64 bits -> hex_of_n bits
+            | PStr s -> hex_of_str s
+            | PChar c -> hex_of_str [c]
+            | PBytes bs -> hex_of_bytes bs
+            | POpaque (_, t) -> hex_of_str t))
+  | _ -> underscored (enc_value v)
 
 (* ---- operators / functions by name (same names as harness/src/exprs.rs) ---- *)
 let pgops = [| PgILike; PgNotILike; PgMatches; PgContains; PgContained; PgConcatenate; PgOverlap;
@@ -154,6 +218,12 @@ let rec expr (s : Sexp.t) : query expr =
   | "vals" -> EValues (List.map value l)
   | "cust" -> ECustom (hx (List.hd l))
   | "custw" -> ECustomWith (hx (List.hd l), List.map expr (List.tl l))
+  (* Expr::cust_with_values / cust_with_exprs / cust_with_expr build the same node *)
+  | "custv" -> ECustomWith (hx (List.hd l), List.map (fun v -> EValue (value v)) (List.tl l))
+  | "custe" -> ECustomWith (hx (List.hd l), List.map expr (List.tl l))
+  | "custe1" -> (match List.tl l with
+                 | [e] -> ECustomWith (hx (List.hd l), [expr e])
+                 | _ -> failwith "custe1 takes exactly one expression")
   | "kw" ->
       EKeyword (match atom (List.hd l) with
         | "null" -> KwNull | "cdate" -> KwCurrentDate | "ctime" -> KwCurrentTime | "cts" -> KwCurrentTimestamp
